@@ -737,7 +737,7 @@ func init() {
 		Real:        []string{"core/store/leveldbstore on goleveldb files (tmpfs)", "core/store/overlaydb OverlayDB + JoinIter + MemDB", "native/storage CacheDB + Iter"},
 		Stub:        []string{"backend read errors are injected by a PersistStore wrapper around the real LevelDB store (OverlayDB takes the interface); no /repo hook needed"},
 		Assumptions: []string{"nil and empty values are not distinguished; an empty persisted value reads as empty and is not listed by scans (the stack itself never persists one)", "iterators are used by First/Next only (the StoreIterator interface) and not across writes", "torn LevelDB batches are excluded by LevelDB's journal", "after an injected read error the check asserts only: error returned, OverlayDB.Error() set (Get) / iterator Error() set and items listed so far are a correct prefix (scan); then the error state is cleared"},
-		QuickRuns:   1000, ThoroughRuns: 60000, QuickCap: 40, ThoroughCap: 800,
+		QuickRuns:   1000, ThoroughRuns: 40000, QuickCap: 40, ThoroughCap: 800,
 		RequiredProbes: []string{"scan_mixing_deleted_overwritten_backendonly", "block_commit", "tx_commit", "backend_get_error", "backend_iter_error", "backend_close_reopen", "process_restart", "crash_before_batch_commit", "block_reset", "tx_reset"},
 		Generate:       c10Generate,
 		Execute:        c10Execute,
